@@ -6,6 +6,7 @@ import Ivg.Gen.Tie.DrawOps
 import Ivg.Gen.Tie.Magic
 import Ivg.Gen.Tie.Code.EncNumbers
 import Ivg.Gen.Tie.Code.DecNumbers
+import Ivg.Gen.Tie.Code.Encoder7
 import Ivg.Obligations
 /-!
 # C08 — number encodings: lossless where possible, bounded error, minimal
@@ -507,4 +508,5 @@ end Ivg.Props.C08
   Ivg.Gen.Tie.decodeCoordinate_model_eq,
   Ivg.Gen.Tie.decodeZeroToOne_code_tie,
   Ivg.Gen.Tie.decodeZeroToOne_model_eq,
-  Ivg.Gen.Tie.isNaNOrInfinity_code_tie]
+  Ivg.Gen.Tie.isNaNOrInfinity_code_tie,
+  Ivg.Gen.Tie.scratch_readback, Ivg.Gen.Tie.setNReg_code_tie, Ivg.Gen.Tie.setNReg_code_tie_state]
